@@ -5,6 +5,7 @@ import (
 	"os"
 	"path/filepath"
 	"reflect"
+	"strconv"
 	"time"
 
 	"github.com/goccy/go-yaml"
@@ -93,7 +94,10 @@ func (c *Config) SaveAsYaml() error {
 	// process structs fields and comments
 	processFields(reflect.TypeOf(Config{}), "")
 
-	data, err := yaml.MarshalWithOptions(c, yaml.WithComment(yamlCommentMap))
+	// Every string is written double-quoted: left bare, values such as 12e4, .inf, 08,
+	// 2020-1-2 or "? x" are read back as a number, a timestamp or a broken document.
+	data, err := yaml.MarshalWithOptions(c, yaml.WithComment(yamlCommentMap),
+		yaml.CustomMarshaler[string](func(s string) ([]byte, error) { return []byte(strconv.Quote(s)), nil }))
 	if err != nil {
 		return fmt.Errorf("error marshaling YAML data: %w", err)
 	}
